@@ -41,7 +41,9 @@ Definition run_table (c : Z * Z * Z * Z) : V :=
      ref  = index (in this history) of the create call whose result is used as
             the description's SDP text, -1 = empty text; a create call that
             failed yields the empty text
-     mut  = mutation applied to that text (0 none)
+     mut  = mutation applied to that text (0 none); on a create call: 1 + the
+            index of the PeerConnection whose senders cannot start under the
+            text produced (0 = none)
      type = SDPType put on the description
    text identity: 16 * (ref + 1) + mut. *)
 Definition mk_flags (p c m cd u pw f f2 : bool) : dflags :=
@@ -63,20 +65,22 @@ Definition hop := (Z * Z * Z * Z * Z)%type.
 
 Record hstate := {
   pcs : list neg;                 (* one per PeerConnection *)
-  created : list (Z * option dflags); (* op index of each create call, flags of its text if it succeeded *)
+  created : list (Z * option (dflags * Z)); (* op index of each create call; if it succeeded,
+                                     flags of its text and the no-send marker *)
   obs : list V                    (* newest first *)
 }.
 
-Fixpoint lookup_created (l : list (Z * option dflags)) (i : Z) : option dflags :=
+Fixpoint lookup_created (l : list (Z * option (dflags * Z))) (i : Z) : option (dflags * Z) :=
   match l with
   | [] => None
   | (j, ok) :: t => if Z.eqb i j then ok else lookup_created t i
   end.
 
-Definition txt_of (h : hstate) (ref mut : Z) : txt :=
+Definition txt_of (h : hstate) (pc ref mut : Z) : txt :=
   if Z.ltb ref 0 then empty_txt
   else match lookup_created (created h) ref with
-       | Some fl =>
+       | Some (fl0, nosend) =>
+           let fl := with_send_ok fl0 (negb (Z.eqb nosend (pc + 1))) in
            (* texts without media sections are handed over unmutated *)
            if Z.eqb mut 0 || negb (has_media fl)
            then {| t_id := Z.to_N (16 * (ref + 1)); t_fl := fl |}
@@ -114,19 +118,19 @@ Definition hstep (r : repair) (h : hstate) (io : Z * hop) : hstate :=
       | None => h
       | Some n =>
           let fresh := Z.to_N (16 * (i + 1)) in
-          let d := {| d_ty := sdptype_of_Z ty; d_txt := txt_of h ref mut |} in
+          let d := {| d_ty := sdptype_of_Z ty; d_txt := txt_of h pc ref mut |} in
           let res : neg * result unit :=
             match kind with
             | 0 => step_r r n (OCreateOffer fresh)
-            | 1 => step_r r n (OCreateAnswer fresh)
+            | 1 => step_r r n (OCreateAnswer fresh (negb (Z.eqb mut (pc + 1))))
             | 2 => step_r r n (OSetLocal d)
             | 3 => step_r r n (OSetRemote d)
             | _ => step_r r n OClose
             end in
-          let made : option dflags :=
+          let made : option (dflags * Z) :=
             match snd res, kind with
-            | Ok _, 0 => Some (t_fl (lastOffer (fst res)))
-            | Ok _, _ => Some (t_fl (lastAnswer (fst res)))
+            | Ok _, 0 => Some (t_fl (lastOffer (fst res)), mut)
+            | Ok _, _ => Some (t_fl (lastAnswer (fst res)), mut)
             | _, _ => None
             end in
           {| pcs := set_nth (pcs h) k (fst res);
